@@ -823,11 +823,13 @@ def oracle(sim: Sim, plan: dict) -> list[dict]:
                 continue
             te = t.get("task_end", [None])[0]
             ts = t.get("task_start", [None])[0]
+            owner_be = body_ends.get(f["ctx"])
+            late = "@teardown_spawn" if owner_be is not None and t["begin"][0] > owner_be[0] else ""
             if te is None:
                 if ts is not None or not t.get("hcancel"):
-                    v("C09.teardown", "not_awaited", f"owner context {f['ctx']} was left while task {tid} had not finished")
+                    v("C09.teardown", "not_awaited" + late, f"owner context {f['ctx']} was left while task {tid} had not finished")
             elif te[0] > x[0]:
-                v("C09.teardown", "not_awaited", f"owner context {f['ctx']} was left before task {tid} finished")
+                v("C09.teardown", "not_awaited" + late, f"owner context {f['ctx']} was left before task {tid} finished")
     # exception handler
     handler_calls: dict[str, list] = {}
     for r in tr:
